@@ -51,6 +51,7 @@ func (ch *Chaos) newIncarnation(cp *ChaosPeer) *PeerH {
 	p := ch.E.NewPeer(cp.Spec, cp.RemoteID, cp.RemoteHold)
 	p.Plug.Name = fmt.Sprintf("%s/inc%d", cp.Spec.RemoteIP, len(cp.Incarnations))
 	p.Plug.Oracle = ch.w.Prop == "C01" || ch.w.Prop == "C10"
+	p.Plug.NilHandler = ch.w.Chance(1, 8, "nilhandler")
 	cp.Incarnations = append(cp.Incarnations, p)
 	cp.Cur = p
 	w := ch.w
